@@ -20,6 +20,8 @@ class VClock:
         task.TaskManager._singleton_instance = None
         task._task_manager = None
         task._unscheduled_tasks = []
+        task._Trigger = None
+        task.TaskManager._singleton_instance = None
         self.tm = task.TaskManager()
         assert task._task_manager is self.tm and self.tm.tasks == []
         core.deferredFns = []
